@@ -1022,6 +1022,29 @@ def check_follow(prog, rep, m):
         ok = len(closing) == 1 and not [g for g in s_.guards if g != ('const', True)] and s_.idx != 'all' and \
             s_.idx[0] == Rat.const(-1) and isinstance(va, App) and va.name in ('read', 'cell?') and va.args[0] == s_.arr.name and \
             va.args[1] == Rat.const(0) and 'reshape' in repr(pa) and repr(pa).count('tuple(-1, 2)') == 1
+    if pa is not None and not closing and isinstance(pa, App) and pa.name == 'method:reshape' and cname is not None:
+        # the same closure written into the flat buffer before it is viewed as (n, 2): numbers 2*count and 2*count + 1 of a
+        # buffer of 2*(count + 1) repeat numbers 0 and 1 (both passes count the same walk: one value stands for the count)
+        flat = [s_ for s_ in k.stores if not s_.loops and s_.arr.name == str(pa.args[0]).strip("'")]
+        if flat:
+            closing = flat
+
+            def is_count(a):
+                return (isinstance(a, Sym) and a.name.startswith(cname + '~')) or \
+                    (isinstance(a, App) and a.name == 'loopout' and str(a.args[0]).strip("'") == cname)
+            try:
+                got = {}
+                for s_ in flat:
+                    va = _atom(s_.value) if isinstance(s_.value, Rat) else None
+                    if s_.idx == 'all' or len(s_.idx) != 1 or [g for g in s_.guards if g != ('const', True)] or \
+                            not (isinstance(va, App) and va.name in ('read', 'cell?') and va.args[0] == s_.arr.name):
+                        got = None
+                        break
+                    env = {a: Fr(7) for a in walk_atoms(s_.idx[0]) if is_count(a)}
+                    got[evaluate(s_.idx[0], env)] = va.args[1]
+                ok = got == {Fr(14): Rat.const(0), Fr(15): Rat.const(1)} and len(flat) == 2 and repr(pa).count('tuple(-1, 2)') == 1
+            except CannotEvaluate:
+                ok = None
     rep.add('G4', f, entry, 'ring closed: last point = first point of the returned (n, 2) array', f.node.lineno, ok,
             'the last vertex of every ring must repeat the first; closing stores: %s' %
             [(str(s_.idx), show(s_.value, 60)) for s_ in closing])
